@@ -521,18 +521,26 @@ Variable h : heap.
 Variable s : store.
 
 Definition is_vptr (v : vcell) : bool := match v with VPtr _ => true | _ => false end.
+Definition is_vpair (v : vcell) : bool := match v with VPair _ _ => true | _ => false end.
 Definition deref1 (v : vcell) : out vcell :=
   match v with VPtr p => heap_get h p | _ => Ok v end.
 
-(* compare.rs:26-51.  Ptr == Ptr compares addresses; Number == Number is PartialEq of
-   Number (NumArith.num_eq); String == String compares the contents of the two Rc. *)
+(* compare.rs:26-57.  Ptr == Ptr compares addresses; numbers (after fix 8d5e4b4): flonums by
+   bit pattern, mixed exactness never, exact ones by PartialEq of Number (NumArith.num_eq);
+   String == String compares the contents of the two Rc. *)
+Definition num_eqv_m (x y : num) : out bool :=
+  match x, y with
+  | Float a, Float b => Ok (f64_bits a =? f64_bits b)%Z
+  | Float _, _ | _, Float _ => Ok false
+  | _, _ => num_eq prof x y
+  end.
 Definition eqv_m (l r : vcell) : out bool :=
   match l, r with
   | VPtr a, VPtr b => if a =? b then Ok true else
       do l' <- heap_get h a; do r' <- heap_get h b;
       match l', r' with
       | VBool x, VBool y => Ok (Bool.eqb x y)
-      | VNum x, VNum y => num_eq prof x y
+      | VNum x, VNum y => num_eqv_m x y
       | VNil, VNil => Ok true
       | VPair a1 d1, VPair a2 d2 => Ok ((a1 =? a2) && (d1 =? d2))
       | VChar x, VChar y => Ok (x =? y)
@@ -547,7 +555,7 @@ Definition eqv_m (l r : vcell) : out bool :=
       do l' <- deref1 l; do r' <- deref1 r;
       match l', r' with
       | VBool x, VBool y => Ok (Bool.eqb x y)
-      | VNum x, VNum y => num_eq prof x y
+      | VNum x, VNum y => num_eqv_m x y
       | VNil, VNil => Ok true
       | VPair a1 d1, VPair a2 d2 => Ok ((a1 =? a2) && (d1 =? d2))
       | VChar x, VChar y => Ok (x =? y)
@@ -616,7 +624,11 @@ with cmp_pair_loop_d (fuel : nat) (left right : vcell) {struct fuel} : dbool :=
           match o1 with
           | Ok true =>
               match heap_get h lcdr, heap_get h rcdr with
-              | Ok l', Ok r' => let '(d2, o2) := cmp_pair_loop_d f l' r' in (nmax d1 d2, o2)
+              | Ok l', Ok r' =>
+                  (* after fix 809a7ae: the final cdrs are compared like any other pair of objects *)
+                  if is_vpair l' && is_vpair r'
+                  then let '(d2, o2) := cmp_pair_loop_d f l' r' in (nmax d1 d2, o2)
+                  else let '(d2, o2) := equal_d f (VPtr lcdr) (VPtr rcdr) in (nmax d1 d2, o2)
               | Ok _, bad => (d1, do _ <- bad; Ok false)
               | bad, _ => (d1, do _ <- bad; Ok false)
               end
